@@ -2,7 +2,7 @@
    `clamp` selects the variant of the shortening rule: false = code as found in the pinned tree,
    true = repaired code (fixes/C37-clamp-shortened-length.patch); theorems quantified over clamp hold for both. *)
 From Coq Require Import List NArith Arith Bool.
-From Verif.C37 Require Import Model Spec Proofs Families.
+From Verif.C37 Require Import Model Spec Proofs Families Global.
 Import ListNotations.
 
 (* every name GetLengthLimitedID returns is at most maxLength bytes long (both variants of the rule) *)
@@ -183,3 +183,36 @@ Theorem c37_make_unique_id_injective : forall H224 t t' c c',
   t = t' /\ (c = c' \/ exists x y, x <> y /\ H224 x = H224 y).
 Proof. exact make_unique_id_injective. Qed.
 Print Assumptions c37_make_unique_id_injective.
+
+(* policy group content (what is hashed into the group UID) determines selector and policy list *)
+Theorem c37_group_content_injective : forall i s t ps qs,
+  has nl s = false -> has nl t = false ->
+  forallb valid_pid ps = true -> forallb valid_pid qs = true ->
+  group_content i s ps = group_content i t qs -> s = t /\ ps = qs.
+Proof. exact group_content_injective. Qed.
+Print Assumptions c37_group_content_injective.
+
+(* MAIN: over every kind of identity at once.  If the specification demands different names for a and b
+   (same kernel namespace, both in the domain, a <> b) and the model gives them one name, then two different
+   texts have equal digests on at least their first 11 characters (66 bits). *)
+Theorem c37_distinct_identities_distinct_names : forall clamp H256 H224 H3,
+  (forall x, length (H224 x) = 38) -> forall a b n,
+  must_differ a b = true ->
+  model_name clamp H256 H224 H3 a = Some n -> model_name clamp H256 H224 H3 b = Some n ->
+  strong_collision H256 H224 H3.
+Proof. exact apart_mod_hash. Qed.
+Print Assumptions c37_distinct_identities_distinct_names.
+
+(* every name the model returns respects the kernel limit of its kind of object *)
+Theorem c37_model_fits : forall clamp H256 H224 H3 i n m,
+  model_name clamp H256 H224 H3 i = Some n -> limit i = Some m -> length n <= m.
+Proof. exact model_fits. Qed.
+Print Assumptions c37_model_fits.
+
+(* the specification oracle accepts the model's output on every list of identities, absent digest collisions *)
+Theorem c37_model_meets_spec : forall clamp H256 H224 H3,
+  (forall x, length (H224 x) = 38) -> ~ strong_collision H256 H224 H3 -> forall l,
+  (forall i, In i l -> model_name clamp H256 H224 H3 i <> None) ->
+  ok_case_obs (map (model_obs clamp H256 H224 H3) l) = true.
+Proof. exact oracle_accepts_model. Qed.
+Print Assumptions c37_model_meets_spec.
